@@ -1,29 +1,71 @@
 #!/usr/bin/env python3
-"""Run the registered checks against the seeded changes in /verif/seeded/<id>/patch.diff:
-apply the patch to /repo, run the quick check of the property it breaks, undo the patch.
-usage: tools/run_seeded.py [id ...]     (writes seeded/RESULTS.json)"""
-import json, os, subprocess, sys, time
+"""Run the registered checks against the seeded changes in /verif/seeded/<id>/patch.diff.
+
+Default mode (--scratch, used while other work goes on in /repo): a scratch worktree of /repo's
+HEAD is created under /tmp, the patch is applied THERE, and check.py runs with VERIF_REPO pointing
+at it (the harness workspace is copied with its path dependencies rewritten; evidence and replays
+go to a scratch directory, the committed evidence is not touched).
+--inplace applies the patch to /repo itself (git -C /repo apply), runs the check and undoes it
+(git -C /repo checkout -- .), exactly as a user of the registered commands would.
+
+usage: tools/run_seeded.py [--inplace] [--cleanup] [id ...]     (writes seeded/RESULTS.json)"""
+import json, os, shutil, subprocess, sys, time
 VERIF = os.path.dirname(os.path.dirname(os.path.abspath(__file__)))
 SEEDED = os.path.join(VERIF, "seeded")
-ids = sys.argv[1:] or sorted(d for d in os.listdir(SEEDED) if os.path.isdir(os.path.join(SEEDED, d)))
+WT, WS, TG, OUT = "/tmp/seed-wt", "/tmp/seed-ws", "/tmp/seed-target", "/tmp/seed-out"
+inplace = "--inplace" in sys.argv
+args = [a for a in sys.argv[1:] if not a.startswith("--")]
+
+def sh(cmd, **kw):
+    return subprocess.run(cmd, capture_output=True, text=True, **kw)
+
+if "--cleanup" in sys.argv:
+    sh(["git", "-C", "/repo", "worktree", "remove", "--force", WT]); sh(["git", "-C", "/repo", "worktree", "prune"])
+    for d in (WS, TG, OUT, WT): shutil.rmtree(d, ignore_errors=True)
+    print("removed scratch dirs")
+    if not args: sys.exit(0)
+
+ids = args or sorted(d for d in os.listdir(SEEDED) if os.path.isdir(os.path.join(SEEDED, d)))
 res_path = os.path.join(SEEDED, "RESULTS.json")
 results = json.load(open(res_path)) if os.path.exists(res_path) else {}
+env = dict(os.environ)
+if inplace:
+    repo = "/repo"
+else:
+    repo = WT
+    head = sh(["git", "-C", "/repo", "rev-parse", "HEAD"]).stdout.strip()
+    if not os.path.isdir(WT):
+        r = sh(["git", "-C", "/repo", "worktree", "add", "--detach", WT, head])
+        if r.returncode: print(r.stderr); sys.exit(2)
+    else:
+        sh(["git", "-C", WT, "checkout", "--", "."]); sh(["git", "-C", WT, "checkout", "-q", "--detach", head])
+    # harness workspace copy with the path dependencies pointing at the scratch worktree
+    shutil.rmtree(WS, ignore_errors=True)
+    shutil.copytree(os.path.join(VERIF, "harness", "bin"), WS, ignore=shutil.ignore_patterns("target"))
+    ct = os.path.join(WS, "Cargo.toml")
+    txt = open(ct).read().replace('"/repo/', '"%s/' % WT)
+    open(ct, "w").write(txt)
+    os.makedirs(OUT, exist_ok=True)
+    env.update(VERIF_REPO=WT, VERIF_HARNESS_WS=WS, VERIF_TARGET=TG, VERIF_EVIDENCE=os.path.join(OUT, "evidence"),
+               VERIF_REPLAYS=os.path.join(OUT, "replays"))
+    os.makedirs(env["VERIF_EVIDENCE"], exist_ok=True); os.makedirs(env["VERIF_REPLAYS"], exist_ok=True)
+
 for sid in ids:
     d = os.path.join(SEEDED, sid)
     meta = json.load(open(os.path.join(d, "meta.json")))
     props = meta.get("check_properties") or [meta["property"]]
     patch = os.path.join(d, "patch.diff")
-    st = subprocess.run(["git", "-C", "/repo", "status", "--porcelain", "--untracked-files=no"], capture_output=True, text=True).stdout.strip()
+    st = sh(["git", "-C", repo, "status", "--porcelain", "--untracked-files=no"]).stdout.strip()
     if st:
-        print("refusing: /repo has uncommitted changes:\n" + st); sys.exit(2)
-    r = subprocess.run(["git", "-C", "/repo", "apply", patch], capture_output=True, text=True)
+        print("refusing: %s has uncommitted changes:\n%s" % (repo, st)); sys.exit(2)
+    r = sh(["git", "-C", repo, "apply", patch])
     if r.returncode != 0:
         print(sid, "patch does not apply:", r.stderr[:300]); results[sid] = {"applied": False, "error": r.stderr[:300]}; continue
     out = {}
     try:
         for p in props:
             t0 = time.time()
-            c = subprocess.run([sys.executable, os.path.join(VERIF, "tools", "check.py"), p, "--tier", "quick"], capture_output=True, text=True, cwd=VERIF)
+            c = sh([sys.executable, os.path.join(VERIF, "tools", "check.py"), p, "--tier", "quick"], cwd=VERIF, env=env)
             lines = [l for l in c.stdout.splitlines() if l.startswith(("VIOLATION", "KNOWN-FINDING", "["))]
             replay = None
             for l in lines:
@@ -34,11 +76,13 @@ for sid in ids:
                         replay = {k: rd.get(k) for k in ("kind", "class", "detail", "component")}
                         if rd.get("kind") == "correspondence":
                             replay["first_difference"] = {k: (rd.get("first_difference") or {}).get(k) for k in ("impl", "model")}
+                        shutil.copy(rp, os.path.join(d, "replay_%s.json" % p))
                     except Exception as e:
                         replay = {"error": str(e)}
             out[p] = {"exit": c.returncode, "lines": [l[:300] for l in lines], "replay": replay, "wall_s": round(time.time() - t0, 1)}
-            print(sid, p, "exit", c.returncode, (replay or {}).get("kind"), (replay or {}).get("class"))
+            if c.returncode not in (0, 1): out[p]["stderr_tail"] = c.stderr[-600:]
+            print(sid, p, "exit", c.returncode, (replay or {}).get("kind"), (replay or {}).get("class"), flush=True)
     finally:
-        subprocess.run(["git", "-C", "/repo", "checkout", "--", "."], check=True)
-    results[sid] = {"applied": True, "checks": out}
+        subprocess.run(["git", "-C", repo, "checkout", "--", "."], check=True)
+    results[sid] = {"applied": True, "mode": "inplace" if inplace else "scratch", "checks": out}
     json.dump(results, open(res_path, "w"), indent=1)
